@@ -18,7 +18,7 @@ import comm_src
 LEVEL = 'proof'
 LEAN_MODULES = ['MpycV.Props.C07', 'MpycV.PropsGen.CommSrcTie']
 LEAN_NAMESPACES = ['MpycV.C07', 'MpycV.CommSrcTie']
-REQUIRED_THEOREMS = ['output_exactly_one_consumer', 'output_points', 'reshare_exactly_one_consumer',
+REQUIRED_THEOREMS = ['output_exactly_one_consumer', 'output_exactly_one_consumer_dedup', 'output_points', 'reshare_exactly_one_consumer',
                      'reshare_points', 'distribute_exactly_one_consumer', 'transfer_exactly_one_consumer',
                      'transfer_arcs_exactly_one_consumer', 'transfer_routes',
                      # source tie (PropsGen/CommSrcTie.lean): routing generated from the current runtime.py = model
